@@ -75,6 +75,24 @@ Proof.
   intros HI Hrun. pose proof (map_insert_spec c k kid v s HI) as H. unfold wp in H. rewrite Hrun in H. apply H.
 Qed.
 
+(* the insertion every vacant entry / raw-entry handle and HashSet::get_or_insert* performs
+   ([vac_insert], the model of RawTable::insert_entry) makes the same progress as an insert of a
+   new key: min(R, L) elements leave the old table, which is released exactly when none is left *)
+Lemma T_C03_entry_insert_step c k kid v s u s' :
+  Inv (cR c) (cesz c) (s_rt s) -> rt_abs (s_rt s) !! k = None ->
+  vac_insert c k kid v s = Ok u s' ->
+  progress c (s_rt s) true (s_rt s').
+Proof.
+  intros HI Habs Hrun. unfold vac_insert in Hrun.
+  pose proof (rt_insert_spec c (Elem k kid v) s HI Habs) as H.
+  pose proof (wp_ok_inv _ _ _ _ _ _ H Hrun) as (_ & _ & _ & Hpos & Hfull).
+  unfold progress. destruct (lo (s_rt s)) as [o|] eqn:Hlo; [|exact I].
+  destruct (N.eq_dec (hgl (main (s_rt s))) 0) as [Hz|Hz].
+  - destruct (Hfull Hz) as [Hcontra _]. discriminate.
+  - destruct (Hpos ltac:(lia)) as (_ & _ & _ & _ & _ & Hprog). rewrite Hlo in Hprog.
+    destruct Hprog as [_ Hprog]. exact Hprog.
+Qed.
+
 (* the whole resize: key-adding insertions one after the other; the old table that holds L
    elements is released by exactly the max(1, ceil(L/R))-th of them (never later, whatever the
    keys, the tombstones and the iteration order), and no other resize starts before that *)
